@@ -413,6 +413,8 @@ Definition ok_sx (c o : sx) : Z :=
   | L [A 1; _; g] => match dec_gcond g with
                      | Some g => match compile_cond (strip g) with
                                  | Some cg => if sx_eqb o (L [A 1; enc_group cg]) then 1 else 0
-                                 | None => 0 end
+                                 (* the written tree has a comparison whose left-hand side is arithmetic with parentheses (or a literal first):
+                                    the condition pattern of the parser does not accept it and the clause is rejected - known finding, class 7 *)
+                                 | None => if sx_eqb o (L [A 2]) then 7 else 0 end
                      | None => 0 end
   | _ => 0 end.
